@@ -883,7 +883,7 @@ def lessons_boundary():
 
 class C03(Prop):
     id = "C03"
-    lean_modules = ["VivModel.Props.C03"]
+    lean_modules = ["VivModel.Props.C03", "VivModel.Props.C03Src"]
     build_targets = ["VivModel.Model.IndexMap", "VivModel.Model.Proto"]
     driver = "C03"
     technique = ("Lean 4 proof (invariant of IndexMap.update for every hash function, block size, map and batch; lifted to every "
